@@ -2218,7 +2218,6 @@ func SameValue(a, b ssa.Value) bool {
 	return false
 }
 
-
 // Contradictory reports whether conds contains an outcome and its opposite for
 // the same condition value: such a path cannot be executed.
 func Contradictory(conds []Cond) bool {
